@@ -245,8 +245,39 @@ def _nice_values(eng, ctx, model, extra_z=None):
 
 
 # ----------------------------------------------------------------------------- exploration
+LATTICE = [Fraction(n, 4) for n in (-12, -8, -4, -2, -1, 0, 1, 2, 4, 8, 12, 3, -3, 6, -6)]
+
+
+def _lattice_witnesses(eng, vals, n, salt):
+    """up to n further parameter assignments on the quarter lattice that satisfy the same path condition (checked by the solver)"""
+    if n <= 0:
+        return
+    import random as _r
+    rng = _r.Random(hash(salt) & 0xffff)
+    names = [k for k in vals if eng.vars[eng.params[k]]['kind'] == 'param']
+    tried, found = set(), 0
+    for attempt in range(4 * n):
+        cand = dict(vals)
+        for k in rng.sample(names, min(len(names), 1 + attempt % 2)):
+            cand[k] = rng.choice(LATTICE)
+        key = tuple(sorted(cand.items()))
+        if key in tried or cand == vals:
+            continue
+        tried.add(key)
+        try:
+            eng._tick()
+            r = eng.solver.check(*[eng.vars[eng.params[k]]['z'] == core._q(v) for k, v in cand.items() if k in names])
+        except BaseException:
+            return
+        if str(r) == 'sat':
+            found += 1
+            yield cand
+            if found >= n:
+                return
+
+
 def explore(fam, tier='quick', budget_s=60, timeout_ms=3000, slow_ms=20000, max_paths=20000, validate=True,
-            profile=True):
+            profile=True, extra_witnesses=0):
     t0 = time.time()
     deadline = t0 + budget_s
     work = [([], False)]
@@ -339,6 +370,18 @@ def explore(fam, tier='quick', budget_s=60, timeout_ms=3000, slow_ms=20000, max_
                     res['validated'] += 1
                     if len(res['samples']) < 3:
                         res['samples'].append(dict(params={k: str(v) for k, v in vals.items()}, outcome=sym_out))
+                    # further witnesses of the same path on the quarter lattice, replayed with floats: the exact-real model
+                    # is blind to rounding, the property's inputs are lattice points
+                    for vals2 in _lattice_witnesses(eng, vals, extra_witnesses, fam.fid):
+                        core.set_engine(None)
+                        c2 = run_concrete(fam, vals2)
+                        if c2['status'] == 'violation':
+                            res['violations'].append(dict(sig=c2['violations'][0][0], detail=str(c2['violations'][0][1])[:300], family=fam.fid,
+                                                          replayed=True, params={k: str(v) for k, v in vals2.items()},
+                                                          concrete_detail='found by float replay of a lattice witness of a path (exact-real model passes)'))
+                            break
+                        if c2['status'] == 'ok':
+                            res['lattice_witnesses'] = res.get('lattice_witnesses', 0) + 1
                 elif c['status'] == 'violation':
                     # the real (float) library breaks the property on the witness although the exact-real model does
                     # not: a genuine, already reproduced violation found by the witness replay
@@ -399,7 +442,7 @@ def _worker(args):
         # planted-defect twin: an in-memory mutant of an anchored function; /repo is never touched
         mod.TWINS[opts['twin']][1]()
     try:
-        return explore(fam, tier=opts['tier'], budget_s=fam.budget_s or opts['budget_s'], timeout_ms=fam.timeout_ms or opts['timeout_ms'],
+        return explore(fam, tier=opts['tier'], budget_s=fam.budget_s or opts['budget_s'], timeout_ms=fam.timeout_ms or opts['timeout_ms'], extra_witnesses=opts.get('extra_witnesses', 0),
                        slow_ms=opts['slow_ms'])
     except BaseException as e:
         return dict(family=fam.fid, paths=0, undecided=1, violations=[], outcomes={}, validated=0, diverged=[],
@@ -491,7 +534,8 @@ def main_check(prop, modname, tier, seed, level_note, bounds, outside_claim, ass
     idxs = [i for i, f in enumerate(fams) if not only or re.search(only, f.fid)]
     opts = dict(tier=tier, seed=seed, budget_s=getattr(mod, 'BUDGET', {}).get(tier, 60 if tier == 'quick' else 300),
                 timeout_ms=getattr(mod, 'TIMEOUT_MS', {}).get(tier, 3000 if tier == 'quick' else 10000),
-                slow_ms=getattr(mod, 'SLOW_MS', {}).get(tier, 15000 if tier == 'quick' else 60000))
+                slow_ms=getattr(mod, 'SLOW_MS', {}).get(tier, 15000 if tier == 'quick' else 60000),
+                extra_witnesses=getattr(mod, 'EXTRA_WITNESSES', {}).get(tier, 2 if tier == 'quick' else 6))
     jobs = jobs or min(16, os.cpu_count() or 4)
     results = schedule(modname, fams, idxs, opts, jobs)
     twins = run_twins(mod, modname, fams, opts, jobs) if not only else []
@@ -598,7 +642,8 @@ def finish(prop, tier, seed, results, t0, level_note, bounds, outside_claim, ass
     cov = dict(
         states=paths,
         transitions=sum(r.get('decisions', 0) for r in results),
-        traces_validated_against_impl=sum(r['validated'] for r in results),
+        traces_validated_against_impl=sum(r['validated'] for r in results) + sum(r.get('lattice_witnesses', 0) for r in results),
+        lattice_witnesses_replayed=sum(r.get('lattice_witnesses', 0) for r in results),
         samples=samples,
         families=len(results), families_decided=len(decided),
         families_undecided=[dict(family=r['family'], errors=r['errors'][:2], missing_outcomes=r.get('missing_outcomes')) for r in undecided][:40],
